@@ -492,6 +492,71 @@ def main():
     except Exception as ex:  # noqa: BLE001
         res.fail("HyperElastic names scenario raises", f"{type(ex).__name__}: {str(ex)[:150]}", dict(sim="HyperElastic"))
 
+    # ---------------- HyperElastic: strain / stress names against the tensors of the state (uniform deformation gradient, Saint Venant-Kirchhoff) ----------------
+    # u = G x: F = I + G, Green-Lagrange E = (F'F - I) / 2 and second Piola-Kirchhoff S = lambda tr(E) I + 2 mu E are known in closed form; every
+    # component name, the columns of the whole tensors and the equivalent values are compared with them (a component and its tensor go
+    # through the same helper: only an independent reference sees a common error)
+    for dimh, eth in ((2, "TRI3"), (2, "QUAD8"), (3, "TETRA4"), (3, "HEXA8")):
+        identh = dict(sim="HyperElastic", law="SaintVenantKirchhoff(lambda=4, mu=3)", elemType=eth, state="u = G x")
+        try:
+            meshh = M.mesh_2d(eth, 2.0, 1.0, 0.5) if dimh == 2 else M.mesh_3d(eth, 2.0, 1.0, 1.5, 1.0, 2)
+            heh = Simulations.HyperElastic(meshh, Models.HyperElastic.SaintVenantKirchhoff(dimh, 4.0, 3.0))
+            Gh = np.array([[dy(rng, -0.125, 0.125, 64) for _ in range(dimh)] for _ in range(dimh)]) + 0.03125 * (1 - np.eye(dimh))
+            heh._Set_solutions(heh.problemType, (meshh.coord[:, :dimh] @ Gh.T).ravel())
+            Fh = np.eye(dimh) + Gh
+            Eh = 0.5 * (Fh.T @ Fh - np.eye(dimh))
+            Sh = 4.0 * np.trace(Eh) * np.eye(dimh) + 2 * 3.0 * Eh
+            order = [(0, 0), (1, 1), (0, 1)] if dimh == 2 else [(0, 0), (1, 1), (2, 2), (1, 2), (0, 2), (0, 1)]
+            cn = ["xx", "yy", "xy"] if dimh == 2 else ["xx", "yy", "zz", "yz", "xz", "xy"]
+            avail = heh.Results_Available()
+            for letter, T_, tname in (("E", Eh, "Green-Lagrange"), ("S", Sh, "Piola-Kirchhoff")):
+                wantT = np.array([T_[i_, j_] for i_, j_ in order])
+                scT = 1 + np.abs(wantT).max()
+                checks = [(letter + c_, wantT[k_]) for k_, c_ in enumerate(cn)] + [(letter + "vm", float(vm(wantT, dimh)))]
+                for nm_, val_ in checks:
+                    if nm_ not in avail:
+                        continue
+                    for nv_ in (False, True):
+                        got_ = np.asarray(heh.Result(nm_, nodeValues=nv_), float).ravel()
+                        res.case(("HyperElastic uniform", eth, nm_, nv_))
+                        if not (np.abs(got_ - val_).max() <= 1e-9 * scT):
+                            res.fail(f"sim=HyperElastic result={nm_} against the tensors of the state", f"uniform deformation gradient I + {Gh.tolist()}: Result('{nm_}', nodeValues={nv_}) = {got_[0]!r}, "
+                                     f"the {tname} tensor of the state gives {val_!r}", dict(identh, G=Gh.tolist()))
+                            break
+                if tname in avail:
+                    gotT = np.asarray(heh.Result(tname, nodeValues=False), float)
+                    res.case(("HyperElastic uniform", eth, tname))
+                    if gotT.shape == (meshh.Ne, len(cn)) and not (np.abs(gotT - wantT).max() <= 1e-9 * scT):
+                        res.fail(f"sim=HyperElastic tensor={tname} against the tensors of the state", f"Result('{tname}') row 0 = {gotT[0].tolist()}, expected {wantT.tolist()}", dict(identh, G=Gh.tolist()))
+        except Exception as ex:  # noqa: BLE001
+            res.fail("HyperElastic uniform-gradient scenario raises", f"{type(ex).__name__}: {str(ex)[:150]}", identh)
+
+    # ---------------- Wdef = 1/2 u'Ku after every parameter of the model was assigned on the existing objects (thickness included) ----------------
+    for kindw in ("elastic", "phasefield"):
+        identw_ = dict(sim=kindw, ops=["Solve", "Wdef vs 1/2 u'Ku", "material.thickness = 2.5", "Wdef vs 1/2 u'Ku", "material.E *= 2", "Wdef vs 1/2 u'Ku"])
+        try:
+            meshw = M.mesh_2d("QUAD4", 2.0, 1.0, 0.5)
+            matw_ = Models.Elastic.Isotropic(2, E=10.0, v=0.25, planeStress=True, thickness=1.0)
+            if kindw == "elastic":
+                sw = Simulations.Elastic(meshw, matw_)
+            else:
+                sw = Simulations.PhaseField(meshw, Models.PhaseField(matw_, "Amor", "AT2", 0.5, 0.4))
+            sw.add_dirichlet(meshw.Nodes_Conditions(lambda x, y, z: x == 0), [0.0, 0.0], ["x", "y"])
+            sw.add_dirichlet(meshw.Nodes_Conditions(lambda x, y, z: x == 2.0), [0.01], ["x"])
+            sw.Solve()
+            for stage, act in (("after Solve", lambda: None), ("after material.thickness = 2.5", lambda: setattr(matw_, "thickness", 2.5)), ("after material.E *= 2", lambda: setattr(matw_, "E", matw_.E * 2))):
+                act()
+                uw = np.asarray(sw.displacement, float).ravel()
+                Kw_ = sw.Get_K_C_M_F("elastic")[0] if kindw == "phasefield" else sw.Get_K_C_M_F()[0]
+                Ww = float(sw.Result("Wdef"))
+                half = 0.5 * uw @ (Kw_ @ uw)
+                res.case(("Wdef after a parameter change", kindw, stage))
+                if not (abs(Ww - half) <= 1e-9 * (1 + abs(half))):
+                    res.fail(f"sim={kindw} Wdef {stage}", f"{stage}: Wdef = {Ww!r} but 1/2 u'Ku = {half!r} with the K the simulation hands out", dict(identw_, stage=stage))
+                    break
+        except Exception as ex:  # noqa: BLE001
+            res.fail(f"Wdef after parameter changes raises sim={kindw}", f"{type(ex).__name__}: {str(ex)[:150]}", identw_)
+
     # ---------------- PhaseField, InElastic (2D / 3D): names, components vs vector / tensor results, energy ----------------
     def tensor_components(simu, tag, dim, ident):
         names = simu.Results_Available()
